@@ -25,7 +25,9 @@ inductive TT where
   | lineNo | length | note | noteN | rest | octave | octaveRel | octaveOnce | qlen | qlenRel
   | velocity | velocityRel | timing | loopBegin | loopBreak | loopEnd | harmonyBegin | harmonyEnd
   | div | sub | playFromHere | comment | octaveRandom | qlenRandom | velocityRandom | timingRandom
-  | track | channel | trackSync | tokens | constInt | other     -- produced by the real lexer only (upper-case commands); used by Model.Exec
+  | track | channel | trackSync | tokens | constInt
+  | keyShift | trackKey | keyFlag | useKeyShift | tieMode | songVelocityAdd | songQAdd | measureShift
+  | voice | controlChange | pitchBend | tempo | timeSignature | time | playFrom | timeBase | other     -- produced by the real lexer only (upper-case commands); used by Model.Exec
 deriving DecidableEq, Repr, Inhabited
 
 inductive Tok where
